@@ -72,10 +72,17 @@ pub fn break_equal(last_string: &str) -> bool {
 pub fn break_concat(last_string: &str) -> bool {
     if let Some('.') = last_string.chars().last() {
         true
-    } else if let Some(first_char) = last_string.chars().next() {
-        first_char == '.' || first_char.is_ascii_digit()
     } else {
-        false
+        let mut characters = last_string.chars();
+        match characters.next() {
+            // a negative number is written with its sign
+            Some('-') => matches!(
+                characters.next(),
+                Some(character) if character == '.' || character.is_ascii_digit()
+            ),
+            Some(first_char) => first_char == '.' || first_char.is_ascii_digit(),
+            None => false,
+        }
     }
 }
 
